@@ -61,6 +61,8 @@ type Node struct {
 	Ch     *chain.Chain
 	Opts   Options
 	closed bool
+	// RecoveryDiscarded lists stored blocks that failed to connect while the node was re-applying them at start-up
+	RecoveryDiscarded []string
 }
 
 var quietOnce sync.Once
@@ -176,7 +178,10 @@ func (n *Node) recoverBlocks() error {
 		ch.Unspent.AbortWriting()
 		ch.Blocks.BlockAdd(nxt.Height, bl)
 		if e := ch.CommitBlock(bl, nxt); e != nil {
-			return fmt.Errorf("recovery: CommitBlock #%d: %v", nxt.Height, e)
+			// HandleNetBlock: the error is printed, the block (and, through CheckParentDiscarded, every queued
+			// descendant) is discarded and the node carries on from where it is
+			n.RecoveryDiscarded = append(n.RecoveryDiscarded, fmt.Sprintf("#%d: %v", nxt.Height, e))
+			break
 		}
 		last = nxt
 	}
